@@ -376,6 +376,16 @@ def unit_part(ctx, gen):
             st = unit_round(ex, "none", False)
             st = [{"op": "fill", "q": 1}] + st
             rounds.append({"name": "unit-%s-full-inbox" % ex, "exit": ex, "seed": rnd.randrange(1 << 30), "inbox": 4, "steps": st})
+    # the manager loop is stalled and its event channel (capacity 256) is full when the connection ends: the close
+    # report must suspend (protocols already told) and arrive exactly once when the manager reads again
+    for ex in UNIT_EXITS:
+        for dropped in (False, True):
+            for r in range(reps // 2):
+                st = unit_round(ex, "none", dropped)
+                assert st[-1]["op"] == "finish"
+                st = [{"op": "mfill"}] + st[:-1] + [{"op": "run", "ms": 400 if "timeout" in ex else 150}, {"op": "munblock"}, st[-1]]
+                rounds.append({"name": "unit-%s-manager-channel-full-%s" % (ex, "dropped" if dropped else "alive"), "exit": "manager-channel-full", "seed": rnd.randrange(1 << 30),
+                               "inbox": 16, "manager_capacity": 256 if r % 2 == 0 else 1, "steps": st})
     nmodel = 0
     for i, stims in enumerate(gen):
         for eager in (False, True):
@@ -400,6 +410,8 @@ def unit_part(ctx, gen):
         bad = evs[-1]
         twice = bad["e"] in ("p_closed", "app_closed") and any(e["e"] == bad["e"] and e.get("q") == bad.get("q") for e in evs[:-1])
         what = "closed-reported-twice" if twice else r.reason.replace(" ", "-").replace(":", "")
+        if r.reason == SILENT[0] and bad["e"] == "quiesce":
+            what = "manager-never-told-closed"
         sig = "%s@%s" % (what, head.get("exit", "?"))
         viol.append({"sig": sig, "what": "%s (real TcpConnection::start(), round %s) at %s" % (r.reason, head.get("sc"), seg[idx - 1][:300]),
                      "replay_obj": {"property": "C07", "level": "unit", "reason": r.reason, "signature": sig,
@@ -635,6 +647,7 @@ def selftest(ctx):
         ("stop-on-proto-error", dict(small, Mutant="stop-on-proto-error"), "", "QuiesceOK"),
         ("close-any", dict(small, Mutant="close-any"), "", "MonOK"),
         ("no-permit-continues", dict(small, Mutant="no-permit-continues"), "", "ClosedOnceRaw"),
+        ("mgr-report-dropped-when-full", dict(small, Mutant="mgr-report-dropped-when-full"), "", "QuiesceOK"),
     ]:
         lines = list(MC_LINES)
         if inv:
